@@ -328,13 +328,22 @@ def r2_tables_agree(ctx, rep):
     # Ext classes: constructor signature (name, url, parent) and the attributes dict2obj relies on
     for k in ents:
         pass
-    for cname in sorted(c for c in py.classes if c.startswith("External") and "_project_list" in py.classes[c].class_attrs):
-        init = py.classes[cname].methods.get("__init__")
-        assigned = {t.attr for n in ast.walk(init) if isinstance(n, ast.Assign) for t in n.targets
-                    if isinstance(t, ast.Attribute)}
+    def class_attr(cname: str, attr: str):
+        for c in py.mro(cname):
+            ci = py.classes.get(c)
+            if ci and attr in ci.class_attrs and ci.class_attrs[attr] is not None:
+                return ci.class_attrs[attr]
+        return None
+    # (the classes dict2obj can construct: the values of the entity table; attributes may be set by a shared base constructor)
+    ext = sorted(c for c in py.classes if c.startswith("External") and class_attr(c, "_project_list") is not None
+                 and any(py.is_subclass(c, b) for b in py.classes if b.startswith("Fortran")))
+    for cname in ext:
+        r_init = py.resolve_method(cname, "__init__")
+        init = r_init[1] if r_init is not None else py.classes[cname].node
+        assigned = py.init_attrs(cname, stop_at_loop=False)
         need = {"name", "external_url", "parent", "obj"}
         ok = need <= assigned
-        pl = py.eval_str(py.classes[cname].class_attrs["_project_list"])
+        pl = py.eval_str(class_attr(cname, "_project_list"))
         ok2 = pl in {a.attr for n in ast.walk(py.func("Project.__init__")) if isinstance(n, (ast.Assign, ast.AnnAssign))
                      for a in ([n.target] if isinstance(n, ast.AnnAssign) else n.targets) if isinstance(a, ast.Attribute)}
         rep.ob(f"{cname}: constructor attributes and project list", ok and ok2,
